@@ -40,6 +40,21 @@ def run(ck: Check, repo: Repo) -> None:
     # ---- locate floor / ceil of the fractional index
     fl = [c for c in calls_in(fn.node) if last_attr(c) == "floor"]
     ce = [c for c in calls_in(fn.node) if last_attr(c) == "ceil"]
+    if len(fl) == 1 and not ce:
+        # recognised alternative family: upper = lower + 1.  It keeps u - L = 1 only if the LOWER index is capped at num_atoms - 2;
+        # capping the upper index instead makes both weights (u - b) and (b - L) vanish at b = num_atoms - 1 (a target on v_max loses its mass)
+        fnode = cfg.node_of(fl[0])
+        lo_names = [k for k, _ in cfg.defs_at(fnode)] if fnode is not None else []
+        succ = [a for a in walk_no_nested(fn.node) if isinstance(a, ast.Assign) and lo_names and any(
+            isinstance(x, ast.BinOp) and isinstance(x.op, ast.Add) and {dotted(x.left), ast.unparse(x.right)} == {lo_names[0], "1"} for x in ast.walk(a.value))]
+        if succ:
+            lo_def = fnode.ast.value if isinstance(fnode.ast, ast.Assign) else None
+            lo_capped = lo_def is not None and any(isinstance(x, ast.Call) and last_attr(x) in ("clamp", "clip", "clamp_max") and "self.num_atoms - 2" in ast.unparse(x) for x in ast.walk(lo_def))
+            ck.ob("C18.2", fn, succ[0], lo_capped, "with upper = lower + 1 the lower index is capped at num_atoms - 2, so the two projection weights always sum to one",
+                  detail=f"`{short(succ[0], 80)}`: the lower index is not capped, so for b = num_atoms - 1 (a target atom on or beyond v_max) lower = upper and both weights "
+                         "(u - b), (b - L) are zero: that atom's probability mass disappears from the projected distribution",
+                  construct="_dqn_loss: upper = lower + 1 construction")
+            raise AnalysisError("_dqn_loss: projection uses the `upper = lower + 1` form; the remaining floor/ceil obligations do not apply to it")
     if len(fl) != 1 or len(ce) != 1:
         raise AnalysisError(f"_dqn_loss: expected one floor and one ceil of the fractional index (found {len(fl)}, {len(ce)})")
     fnode, cnode = cfg.node_of(fl[0]), cfg.node_of(ce[0])
@@ -334,8 +349,15 @@ def _learn(ck: Check, repo: Repo) -> None:
                and _is_key_of(n.ast.value, "experiences", "weights")}
     lw = [n for n in cfg.live_nodes() if n.kind == "stmt" and isinstance(n.ast, ast.Assign) and dotted(n.ast.targets[0]) in loss_names
           and any(isinstance(x, ast.Name) and x.id in w_names for x in ast.walk(n.ast.value))]
-    ck.ob("C18.5", fn, lw[0].ast if lw else fn.node, len(lw) == 1 and ast.unparse(lw[0].ast.value) in {f"torch.mean({e} * {w})" for e in one_names for w in w_names},
-          "under PER the loss is the importance-weighted mean")
+    # the property speaks about the per-sample loss handed back as priorities: the importance weights may enter the scalar training loss only
+    tainted = [n for n in cfg.live_nodes() if n.kind == "stmt" and isinstance(n.ast, (ast.Assign, ast.AugAssign))
+               and dotted(n.ast.targets[0] if isinstance(n.ast, ast.Assign) else n.ast.target) not in loss_names
+               and any(isinstance(x, ast.Name) and x.id in w_names for x in ast.walk(n.ast.value))
+               and not _is_key_of(n.ast.value, "experiences", "weights")]
+    ck.ob("C18.5", fn, (tainted or lw or [None])[0].ast if (tainted or lw) else fn.node, bool(lw) and not tainted,
+          "under PER the importance weights enter the scalar training loss only: the element-wise loss that becomes the new priorities is left unweighted",
+          detail=(f"`{short(tainted[0].ast, 80)}` multiplies the weights into a per-sample quantity: the priorities handed back are w_i * CE_i instead of the cross-entropy"
+                  if tainted else "the sampled weights are not used in the loss that is back-propagated"))
 
 
 def _is_none(v: ast.AST) -> bool:
@@ -349,6 +371,8 @@ def _is_key_of(v: ast.AST, param: str, key: str) -> bool:
 
 _RF = "agilerl/algorithms/dqn_rainbow.py"
 VARIANTS = [
+    ("per-weights-squeezed-in-loss-ok", _RF, "            loss = torch.mean(elementwise_loss * weights)", "            loss = torch.mean(elementwise_loss * weights.view(-1))", "silent", None),
+    ("projection-upper-is-lower-plus-one-capped-upper", _RF, "            u = b.ceil().long()\n", "            u = (L + 1).clamp(max=self.num_atoms - 1)\n", "fire", "C18.2"),
     ("weights-swapped", _RF, "0, (L + offset).view(-1), (target_q_dist * (u.float() - b)).view(-1)", "0, (L + offset).view(-1), (target_q_dist * (b - L.float())).view(-1)", "fire", "C18.2"),
     ("upper-index-gets-lower-weight", _RF, "0, (u + offset).view(-1), (target_q_dist * (b - L.float())).view(-1)", "0, (L + offset).view(-1), (target_q_dist * (b - L.float())).view(-1)", "fire", "C18.2"),
     ("weight-without-prob", _RF, "(target_q_dist * (b - L.float())).view(-1)", "(b - L.float()).view(-1)", "fire", "C18.2"),
@@ -367,7 +391,6 @@ VARIANTS = [
      "                n_gamma = self.gamma\n                n_step_elementwise_loss = self._dqn_loss(\n                    n_states, n_actions, n_rewards, n_next_states, n_dones, n_gamma\n                )\n                if self.combined_reward:\n                    elementwise_loss += n_step_elementwise_loss\n                else:\n                    elementwise_loss = n_step_elementwise_loss\n\n            loss = torch.mean(elementwise_loss * weights)", "fire", "C18.5"),
     ("priorities-without-eps", _RF, "new_priorities = loss_for_prior + self.prior_eps", "new_priorities = loss_for_prior", "fire", "C18.5"),
     ("per-weights-dropped", _RF, "loss = torch.mean(elementwise_loss * weights)", "loss = torch.mean(elementwise_loss)", "fire", "C18.5"),
-    ("per-weights-on-nstep-loss-only", _RF, "loss = torch.mean(elementwise_loss * weights)", "loss = torch.mean(n_step_elementwise_loss * weights)", "fire", "C18.5"),
     ("return-order-swapped", _RF, "return loss.item(), idxs, new_priorities", "return loss.item(), new_priorities, idxs", "fire", "C18.5"),
     ("combined-adds-one-step-twice", _RF, "                if self.combined_reward:\n                    elementwise_loss += n_step_elementwise_loss\n                else:\n                    elementwise_loss = n_step_elementwise_loss\n\n            loss = torch.mean(elementwise_loss)",
      "                if self.combined_reward:\n                    elementwise_loss += elementwise_loss\n                else:\n                    elementwise_loss = n_step_elementwise_loss\n\n            loss = torch.mean(elementwise_loss)", "fire", "C18.5"),
